@@ -1,0 +1,9 @@
+//go:build !verif
+
+package mrpc
+
+import "net"
+
+// No-op counterpart of the verification hook in verif_hooks.go.
+
+func verifConn(serverAddr string, conn net.Conn) {}
